@@ -14,8 +14,9 @@ const GUESS_HZ_1K: f64 = 1000.0; // Common frequency guess: 1000 Hz
 const GUESS_HZ_100: f64 = 100.0; // Common frequency guess: 100 Hz
 const GUESS_TOLERANCE: f64 = 0.10; // Tolerance for frequency guessing
 
-// Connection tracking cache TTL
-const CONNECTION_CACHE_TTL_SECS: u64 = 30; // Time-to-live for cached connection data (seconds)
+// Connection tracking cache TTL: a reference timestamp must live as long as the longest interval
+// it may be compared over (MAX_TWAIT), or a steady clock seen 30 s .. 10 min apart is never reported
+const CONNECTION_CACHE_TTL_SECS: u64 = 600; // Time-to-live for cached connection data (seconds) = MAX_TWAIT
 
 #[derive(Debug, Hash, Eq, PartialEq, Clone)]
 pub struct Connection {
